@@ -155,6 +155,7 @@ class EpochRules:
         cur = S('p:' + f['params'][0]['name'])
         ps = self.paths(f)
         general = 0
+        ptr_loop = set()
         for p in ps:
             ems = [e for e in p.events if e['kind'] == 'call' and e.get('obj') == lst and e.get('name') in ('emplace_back', 'push_back')]
             other = [e for e in p.events if e['kind'] == 'call' and e.get('obj') == lst and not e.get('const_method') and
@@ -180,14 +181,25 @@ class EpochRules:
                 gets = [e for e in seg if e['kind'] == 'call' and e.get('callee') == self.F['ep.GetProtectedEpoch']['key']]
                 app = [e for e in seg if e in ems]
                 key_i = 'slot %s' % norm(idx)
-                if not (x['obj'][0] == 'field' and x['obj'][2] == self.hbf and isinstance(slot, tuple) and slot[0] == 'addr' and slot[1][0] == 'index' and slot[1][1] == ('field', S('this'), self.slots)):
+                BASE = S('this->' + self.slots)
+                END = ('op', '+', BASE, C(self.slots_extent), 64)
+                idx_form = x['obj'][0] == 'field' and x['obj'][2] == self.hbf and isinstance(slot, tuple) and slot[0] == 'addr' and slot[1][0] == 'index' and \
+                    slot[1][1] == ('field', S('this'), self.slots)
+                ptr_form = x['obj'][0] == 'field' and x['obj'][2] == self.hbf and (slot == BASE or (isinstance(slot, tuple) and slot[0] == 's' and '~' in slot[1]))
+                if not (idx_form or ptr_form):
                     sink.unsup('C04.SCAN', 'expired() receiver', self.loc(f, x['line']), show(x['obj']))
                     continue
-                if not is_const(idx):
+                if idx_form and not is_const(idx):
                     general += 1
                     inb = any(c[0] == 'op' and c[1] == '<' and c[2] == idx and is_const(c[3]) and c[3][1] == self.slots_extent and o for c, o, _ in p.conds if isinstance(c, tuple))
                     sink.emit('C04.SCAN', 'ok' if inb else 'violated', 'scan index bounded by the number of slots', self.loc(f, x['line']),
                               'loop condition i < %d' % self.slots_extent)
+                elif ptr_form and slot != BASE:
+                    general += 1
+                    inb = any(isinstance(c, tuple) and c[0] == 'op' and c[1] == '!=' and c[2] == slot and c[3] == END and o for c, o, _ in p.conds)
+                    sink.emit('C04.SCAN', 'ok' if inb else 'violated', 'scan pointer bounded by the end of the slot array', self.loc(f, x['line']),
+                              'loop condition p != slots + %d' % self.slots_extent)
+                    ptr_loop.add(slot[1].split('~')[0])
                 if exp_t is True:
                     sink.emit('C04.SCAN', 'ok' if not app else 'violated', '%s with expired heartbeat is skipped' % ('general' if not is_const(idx) else 'first'), self.loc(f, x['line']), '')
                     continue
@@ -264,8 +276,13 @@ class EpochRules:
 
         def is_index(v):
             return isinstance(v, tuple) and v[0] == 's' and '~' in v[1] and v[1].split('~')[0] in loopvars
+        END2 = ('op', '+', S('this->' + self.slots), C(self.slots_extent), 64)
+
+        def is_ptr(v):
+            return isinstance(v, tuple) and v[0] == 's' and '~' in v[1] and v[1].split('~')[0] in ptr_loop
         for p in ps:
-            done = any(isinstance(c, tuple) and c[0] == 'op' and c[1] == '<' and is_index(c[2]) and is_const(c[3]) and c[3][1] == self.slots_extent and not o for c, o, _ in p.conds) or \
+            done = any(isinstance(c, tuple) and c[0] == 'op' and c[1] == '!=' and is_ptr(c[2]) and c[3] == END2 and not o for c, o, _ in p.conds) or \
+                any(isinstance(c, tuple) and c[0] == 'op' and c[1] == '<' and is_index(c[2]) and is_const(c[3]) and c[3][1] == self.slots_extent and not o for c, o, _ in p.conds) or \
                 any(isinstance(c, tuple) and c[0] == 'op' and c[1] in ('>=', '==') and is_index(c[2]) and is_const(c[3]) and c[3][1] == self.slots_extent and o for c, o, _ in p.conds)
             hard = [e for e in p.events if e['kind'] == 'cond' and e['value'] == C(0, 1)]
             sink.emit('C04.SCAN', 'ok' if done else 'violated', 'the scan leaves its loop only when every slot index was visited', self.loc(f, p.ret_line),
@@ -276,7 +293,7 @@ class EpochRules:
         upd = set()
         for p in ps:
             for e in p.events:
-                if e['kind'] == 'assign_local' and e['path'][0] == 'var':
+                if e['kind'] == 'assign_local' and e['path'][0] == 'var' and (e['path'][2] in loopvars or e['path'][2] in ptr_loop or not (loopvars or ptr_loop)):
                     upd.add('+1' if e.get('how') == '++' else norm(e['value']))
         sink.emit('C04.SCAN', 'ok' if upd == {'+1'} else 'violated', 'scan visits every slot index once (i = 0; i < N; ++i)', self.loc(f), 'index updates: %s' % sorted(upd))
 
